@@ -16,7 +16,7 @@ Section Handles.
     destruct (file_of s c) as [[[[d k] i] m]|] eqn:E; [|stay].
     destruct (negb (has (hd_mode f) OpenWrite)); [stay|].
     destruct b as [|b0 b']; [stay|].
-    cbn [fst]. apply step_ok_with_heap. exact (Inv_heap_set_data _ c d k i m _ IH (file_of_get c d k i m E)).
+    cbn [fst]. apply step_ok_with_heap. exact (Inv_heap_set_file _ c d k i m _ _ IH (file_of_get c d k i m E)).
   Qed.
 
   Lemma f_write_at_ok b off : step_ok s (fst (f_write_at s v f b off)).
@@ -27,7 +27,7 @@ Section Handles.
     destruct (hd_node f) as [c|]; [|stay].
     destruct (file_of s c) as [[[[d k] i] m]|] eqn:E; [|stay].
     destruct (negb (has (hd_mode f) OpenWrite)); [stay|].
-    cbn [fst]. apply step_ok_with_heap. exact (Inv_heap_set_data _ c d k i m _ IH (file_of_get c d k i m E)).
+    cbn [fst]. apply step_ok_with_heap. exact (Inv_heap_set_file _ c d k i m _ _ IH (file_of_get c d k i m E)).
   Qed.
 
   Lemma f_truncate_ok size : step_ok s (fst (f_truncate s v f size)).
@@ -37,7 +37,7 @@ Section Handles.
     destruct (Z.ltb size 0); [stay|].
     destruct (file_of s c) as [[[[d k] i] m]|] eqn:E; [|stay].
     destruct (negb (has (hd_mode f) OpenWrite)); [stay|].
-    cbn [fst]. apply step_ok_with_heap. exact (Inv_heap_set_data _ c d k i m _ IH (file_of_get c d k i m E)).
+    cbn [fst]. apply step_ok_with_heap. exact (Inv_heap_set_file _ c d k i m _ _ IH (file_of_get c d k i m E)).
   Qed.
 
   Lemma f_chmod_ok mode : step_ok s (fst (f_chmod s v f mode)).
